@@ -1,6 +1,6 @@
 (* C16: the teardown code reduced to its shape, and the model's fan-out chain derived from it.
 
-   tools/translate/c16_registries.py (shapes) reduces 19 functions of the teardown path to the
+   tools/translate/c16_registries.py (shapes) reduces 20 functions of the teardown path to the
    ordered list of their effects (pop / del / emit / cancel / set_result / listener
    registration / sub-hook call), each prefixed by the control structure it sits in and with
    the text of every `if` test.  [expected_shapes] below is that list for the code the model
@@ -45,6 +45,19 @@ Definition expected_shapes : list (string * list string) := [
      "for[handle in [*self.connections, *self.cis_links, *self.sco_links]]";
      "for>self.on_hci_disconnection_complete_event()";
      "self.emit('flush')"]);
+  ("host.Host._send_command",
+    ["self.command_semaphore.acquire()";
+     "set self.pending_response";
+     "set self.pending_command";
+     "try>return";
+     "except[asyncio.TimeoutError]";
+     "except[asyncio.TimeoutError]>raise";
+     "except[Exception]";
+     "except[Exception]>raise";
+     "finally>set self.pending_command";
+     "finally>set self.pending_response";
+     "finally>if[response is None or (response.num_hci_command_packets and self.command_semaphore.locked())]";
+     "finally>then>self.command_semaphore.release()"]);
   ("host.DataPacketQueue.flush",
     ["if[(flushed_count := (len(self._packets) - len(packets_to_keep)))]";
      "then>set self._completed";
@@ -115,7 +128,180 @@ Definition expected_shapes : list (string * list string) := [
   ("gatt_server.Server.register_eatt",
     ["def on_channel>channel.once(channel.EVENT_CLOSE)";
      "def on_channel>self.on_disconnection(channel)";
-     "def on_channel>def on_pdu>except>return";
+     "def on_channel>def on_pdu>except[Exception]";
+     "def on_channel>def on_pdu>except[Exception]>return";
+     "def on_channel>set channel.sink";
+     "return"]);
+  ("gatt_client.Client.__init__",
+    ["then>bearer.on(bearer.EVENT_CLOSE)";
+     "else>bearer.on(bearer.EVENT_DISCONNECTION)"]);
+  ("gatt_client.Client.on_disconnection",
+    ["del args";
+     "if[self.pending_response and (not self.pending_response.done())]";
+     "then>self.pending_response.cancel()"]);
+  ("smp.Session.__init__",
+    ["connection.on(connection.EVENT_DISCONNECTION)";
+     "connection.on(connection.EVENT_CONNECTION_ENCRYPTION_CHANGE)";
+     "connection.on(connection.EVENT_CONNECTION_ENCRYPTION_KEY_REFRESH)"]);
+  ("smp.Session.on_pairing_failure",
+    ["if[self.completed]";
+     "then>return";
+     "set self.completed";
+     "if[self.pairing_result is not None and (not self.pairing_result.done())]";
+     "then>self.pairing_result.set_exception(error)";
+     "self.manager.on_session_end(self)"]);
+  ("smp.Session.on_disconnection",
+    ["self.connection.remove_listener(self.connection.EVENT_DISCONNECTION)";
+     "self.connection.remove_listener(self.connection.EVENT_CONNECTION_ENCRYPTION_CHANGE)";
+     "self.connection.remove_listener(self.connection.EVENT_CONNECTION_ENCRYPTION_KEY_REFRESH)";
+     "self.manager.on_session_end(self)"]);
+  ("smp.Manager.on_session_end",
+    ["if[session.connection.handle in self.sessions]";
+     "then>del self.sessions[session.connection.handle]"]);
+  ("sdp.Client.on_channel_close",
+    ["if[self.pending_response is not None and (not self.pending_response.done())]";
+     "then>self.pending_response.cancel()"]);
+  ("rfcomm.Multiplexer.on_l2cap_channel_close",
+    ["if[self.connection_result]";
+     "then>self.connection_result.cancel()";
+     "then>set self.connection_result";
+     "if[self.open_result]";
+     "then>self.open_result.cancel()";
+     "then>set self.open_result";
+     "if[self.disconnection_result]";
+     "then>self.disconnection_result.cancel()";
+     "then>set self.disconnection_result";
+     "for[dlc in self.dlcs.values()]";
+     "for>dlc.abort()"]);
+  ("utils.cancel_on_event",
+    ["if[future.done()]";
+     "then>return";
+     "def on_event>del args";
+     "def on_event>del kwargs";
+     "def on_event>if[future.done()]";
+     "def on_event>then>return";
+     "def on_event>if[isinstance(future, asyncio.Task)]";
+     "def on_event>then>future.cancel(msg)";
+     "def on_event>else>future.set_exception()";
+     "def on_done>emitter.remove_listener(event)";
+     "emitter.on(event)";
+     "future.add_done_callback(on_done)";
+     "return"])
+].
+
+(* the same with fixes/D16k.patch (Host refuses to write a command into a lost transport) *)
+Definition expected_shapes_d16k : list (string * list string) := [
+  ("host.Host.on_hci_disconnection_complete_event",
+    ["if[(connection := (self.connections.get(handle) or self.cis_links.get(handle) or self.sco_links.get(handle))) is None]";
+     "then>return";
+     "if[event.status == hci.HCI_SUCCESS]";
+     "then>self.emit('disconnection')";
+     "then>self.link_ts_flags.pop(handle)";
+     "then>self.connections.pop(handle)";
+     "then>self.cis_links.pop(handle)";
+     "then>self.sco_links.pop(handle)";
+     "then>if[self.acl_packet_queue]";
+     "then>then>self.acl_packet_queue.flush(handle)";
+     "then>if[self.le_acl_packet_queue]";
+     "then>then>self.le_acl_packet_queue.flush(handle)";
+     "then>if[self.iso_packet_queue]";
+     "then>then>self.iso_packet_queue.flush(handle)";
+     "else>self.emit('disconnection_failure')"]);
+  ("host.Host.on_transport_lost",
+    ["set self.transport_lost";
+     "if[self.pending_response and (not self.pending_response.done())]";
+     "then>self.pending_response.set_exception()";
+     "for[handle in [*self.connections, *self.cis_links, *self.sco_links]]";
+     "for>self.on_hci_disconnection_complete_event()";
+     "self.emit('flush')"]);
+  ("host.Host._send_command",
+    ["self.command_semaphore.acquire()";
+     "if[self.transport_lost]";
+     "then>self.command_semaphore.release()";
+     "then>raise";
+     "set self.pending_response";
+     "set self.pending_command";
+     "try>return";
+     "except[asyncio.TimeoutError]";
+     "except[asyncio.TimeoutError]>raise";
+     "except[Exception]";
+     "except[Exception]>raise";
+     "finally>set self.pending_command";
+     "finally>set self.pending_response";
+     "finally>if[response is None or (response.num_hci_command_packets and self.command_semaphore.locked())]";
+     "finally>then>self.command_semaphore.release()"]);
+  ("host.DataPacketQueue.flush",
+    ["if[(flushed_count := (len(self._packets) - len(packets_to_keep)))]";
+     "then>set self._completed";
+     "then>set self._packets";
+     "if[(connection_state := self._connection_state.pop(connection_handle, None))]";
+     "test>self._connection_state.pop(connection_handle)";
+     "then>set self._completed";
+     "then>set self._in_flight";
+     "then>connection_state.drained.set()";
+     "self._check_queue()"]);
+  ("device.Device.host",
+    ["if[self._host]";
+     "then>for[event_name in device_host_event_handlers]";
+     "then>for>self._host.remove_listener(event_name)";
+     "if[host]";
+     "then>for[event_name in device_host_event_handlers]";
+     "then>for>host.on(event_name)";
+     "set self._host";
+     "set self.l2cap_channel_manager.host";
+     "if[host]";
+     "then>set host.long_term_key_provider";
+     "then>set host.link_key_provider"]);
+  ("device.Device.on_disconnection",
+    ["if[(connection := self.connections.pop(connection_handle, None))]";
+     "test>self.connections.pop(connection_handle)";
+     "then>connection.emit(connection.EVENT_DISCONNECTION)";
+     "then>self.gatt_server.on_disconnection(connection)";
+     "else>if[(sco_link := self.sco_links.pop(connection_handle, None))]";
+     "else>test>self.sco_links.pop(connection_handle)";
+     "else>then>sco_link.emit(sco_link.EVENT_DISCONNECTION)";
+     "else>else>if[(cis_link := self.cis_links.pop(connection_handle, None))]";
+     "else>else>test>self.cis_links.pop(connection_handle)";
+     "else>else>then>cis_link.emit(cis_link.EVENT_DISCONNECTION)"]);
+  ("device.Device.on_flush",
+    ["self.emit(self.EVENT_FLUSH)";
+     "for[(_, connection) in self.connections.items()]";
+     "for>connection.emit(connection.EVENT_DISCONNECTION)";
+     "set self.connections"]);
+  ("device.Device.disconnect",
+    ["connection.on(connection.EVENT_DISCONNECTION)";
+     "connection.on(connection.EVENT_DISCONNECTION_FAILURE)";
+     "try>set self.disconnecting";
+     "try>return";
+     "finally>connection.remove_listener(connection.EVENT_DISCONNECTION)";
+     "finally>connection.remove_listener(connection.EVENT_DISCONNECTION_FAILURE)";
+     "finally>set self.disconnecting"]);
+  ("l2cap.ChannelManager.on_disconnection",
+    ["del reason";
+     "if[(channels := self.channels.pop(connection_handle, None))]";
+     "test>self.channels.pop(connection_handle)";
+     "then>for[channel in channels.values()]";
+     "then>for>channel.abort()";
+     "if[(le_coc_channels := self.le_coc_channels.pop(connection_handle, None))]";
+     "test>self.le_coc_channels.pop(connection_handle)";
+     "then>for[le_coc_channel in le_coc_channels.values()]";
+     "then>for>le_coc_channel.abort()";
+     "if[(pending_credit_based_connections := self.pending_credit_based_connections.pop(connection_handle, None))]";
+     "test>self.pending_credit_based_connections.pop(connection_handle)";
+     "then>for[(future, _) in pending_credit_based_connections.values()]";
+     "then>for>if[not future.done()]";
+     "then>for>then>future.cancel('ACL disconnected')";
+     "self.le_coc_requests.pop(connection_handle)";
+     "self.identifiers.pop(connection_handle)"]);
+  ("gatt_server.Server.on_disconnection",
+    ["self.subscribers.pop(bearer)";
+     "self.indication_semaphores.pop(bearer)";
+     "self.pending_confirmations.pop(bearer)"]);
+  ("gatt_server.Server.register_eatt",
+    ["def on_channel>channel.once(channel.EVENT_CLOSE)";
+     "def on_channel>self.on_disconnection(channel)";
+     "def on_channel>def on_pdu>except[Exception]";
+     "def on_channel>def on_pdu>except[Exception]>return";
      "def on_channel>set channel.sink";
      "return"]);
   ("gatt_client.Client.__init__",
@@ -262,7 +448,43 @@ Fixpoint index_of (t : string) (l : list string) (i : nat) : option nat :=
   | x :: r => if String.eqb x t then Some i else index_of t r (S i)
   end.
 
+(* Host._send_command, the HCI command gate: the semaphore is acquired first and released
+   in the `finally`, under a test that holds whenever no response was received - i.e. on
+   EVERY exit path of the awaiting caller: response, timeout, error and CANCELLATION
+   (asyncio.CancelledError is a BaseException: an `except Exception` handler does not run) -
+   and any early exit before the `try` releases before it raises. *)
+Definition F_send_command := "host.Host._send_command".
+
+Definition gate_release_ok (sh : list (string * list string)) : bool :=
+  let ts := tokens_of sh F_send_command in
+  match index_of "self.command_semaphore.acquire()" ts 0 with Some O => true | _ => false end &&
+  match index_of "finally>if[response is None or (response.num_hci_command_packets and self.command_semaphore.locked())]" ts 0,
+        index_of "finally>then>self.command_semaphore.release()" ts 0 with
+  | Some a, Some b => Nat.eqb b (S a)
+  | _, _ => false
+  end &&
+  (if existsb (String.eqb "then>raise") ts
+   then match index_of "then>self.command_semaphore.release()" ts 0, index_of "then>raise" ts 0 with
+        | Some a, Some b => Nat.ltb a b
+        | _, _ => false
+        end
+   else true).
+
+(* exit paths of the caller awaiting in _send_command, and whether the gate is released on
+   each, as a function of where the release sits *)
+Inductive gate_exit := XResponse | XTimeout | XError | XCancelled.
+Inductive release_site := InFinallyWhenNoResponse | InExceptHandlersOnly.
+Definition gate_released (site : release_site) (x : gate_exit) : bool :=
+  match site, x with
+  | InFinallyWhenNoResponse, _ => true          (* (with a response: released by its num_hci_command_packets) *)
+  | InExceptHandlersOnly, XCancelled => false   (* `except asyncio.TimeoutError` / `except Exception` do not see it *)
+  | InExceptHandlersOnly, _ => true
+  end.
+Definition site_of (sh : list (string * list string)) : release_site :=
+  if gate_release_ok sh then InFinallyWhenNoResponse else InExceptHandlersOnly.
+
 Definition loss_path_ok (sh : list (string * list string)) : bool :=
+  gate_release_ok sh &&
   let ts := tokens_of sh F_host_loss in
   match index_of "if[self.pending_response and (not self.pending_response.done())]" ts 0,
         index_of "then>self.pending_response.set_exception()" ts 0,
